@@ -347,7 +347,8 @@ class Ctx(object):
 def proof_stage(ctx, translate_sections, vo_targets, props_file, expected_theorems):
     """translate, build, audit.  Returns dict with status; records obligations in ctx."""
     st = {"translate": {}, "build_ok": False, "audit": [], "theorems": {}, "broken": []}
-    tr = T.translate(translate_sections, ctx.repo) if translate_sections else {}
+    # every section is regenerated on every run (model files import several of them)
+    tr = T.translate(None, ctx.repo)
     st["translate"] = tr
     for k, v in tr.items():
         if v is not None:
